@@ -81,6 +81,16 @@ def decl_specs(tier):
     return specs
 
 
+def optimized_specs(tier):
+    """the flat delimited programs (and the sized ones) once more under python -O"""
+    out = []
+    for sp in decl_specs(tier):
+        t = sp['tag']
+        if ' gen=True' in t and ('sbl=None' in t or 'sbl=3' in t) and not t.startswith('eos'):
+            out.append(sp)
+    return out
+
+
 def check_one(dc, st, raw, r):
     r, u = ea.conformance(dc, st, raw, r)
     st.add('states', (dc.spec['tag'], r[0], u[0] if u else None, len(raw)))
@@ -121,6 +131,8 @@ def check_decl(dc, st, tier, only=None):
             check_stability(dc, st, [only['raw'], only['then']])
         return
     budget = 10000 if tier == 'quick' else 70000
+    if dc.spec.get('optimized'):
+        budget = 1500 if tier == 'quick' else 10000
     accepted = []
     # long values: the delimiter / the end of the declared size lies 255, 256, 4095, 4096, 4097, 8192 ... bytes away (io buffer
     # sizes, a default search window someone might introduce), for the flat programs
@@ -145,14 +157,23 @@ def check_decl(dc, st, tier, only=None):
 
 def run(tier):
     st = ea.run(MODULE, tier)
+    from mc import ea_o
+    so = ea_o.run(MODULE, tier)         # the flat programs once more under python -O (assert statements stripped)
+    st.merge(so)
+    st.notes.extend(so.notes)
     cov = ea.coverage(st, 'pre=Int(1), one Data, post=Int(1) for every sizing mode (constant 0/1/2, field, signed field, 3 expressions, 2 callables, '
                           '1/2/3-byte markers (ab / aab: overlapping prefixes), 4 regexes, EOS) x include_delimiter x consume_delimiter x '
                           'search_buffer_length in unset/0/2/3 x generated/generic, flat and inside a repeated reference; all inputs up to the bound; '
                           'value, cursor, errors vs the reference; pack = value + excluded literal delimiter; '
-                          'states = distinct (program, reference outcome, implementation outcome, input length)')
-    return {'stats': st, 'coverage': cov,
+                          'states = distinct (program, reference outcome, implementation outcome, input length); the flat programs '
+                          '(search window unset / 3) once more in child interpreters started with -O, with a smaller input budget',
+                      {'programs_under_python_O': st.n.get('programs_under_O', 0)})
+    return {'stats': st, 'coverage': cov, 'harness_errors': [n for n in st.notes if n.startswith('HARNESS')],
             'assumptions': ['reference interpreter mc/refsem.py', 'regex "$" alternatives only without a search window (the window makes "$" ambiguous)']}
 
 
 def replay(case):
+    if case.get('optimized') and sys.flags.optimize < 1:
+        from mc import ea_o
+        return ea_o.replay(MODULE, case)
     return ea.replay_decl(sys.modules[__name__], case)
